@@ -202,7 +202,7 @@ where
         );
 
         let w = (f64::consts::E / epsilon).ceil() as usize;
-        let d = (1. / delta).ln().ceil() as usize;
+        let d = (-delta.ln()).ceil() as usize;
         Self::with_params_and_hasher(w, d, buildhasher)
     }
 
